@@ -31,7 +31,7 @@ package cors
 //@   frozen E! MP! MV! F!origins_node F!util_Set F!cors_internalConfig F!http_Request
 //@   requires m != nil && r != nil
 //@   requires hdr(w) != r.Header
-//@   requires old(m.icfg) != nil ==> ICfgInv(old(m.icfg))
+//@   requires old(m.icfg) != nil ==> ICfgInv(old(m.icfg)) && TreeInv(old(m.icfg))
 //@
 //@   ensures C11.handler_calls: nevents("ServeHTTP") == ((old(m.icfg) == nil || !old(IsPreflight(r))) ? 1 : 0)
 //@   ensures C11.handler_args: nevents("ServeHTTP") == 1 ==> eventarg("ServeHTTP", 0) === h && eventarg("ServeHTTP", 1) === w && eventarg("ServeHTTP", 2) === r
@@ -167,7 +167,7 @@ package cors
 //@   props C01 C04 C05 C06 C08 C15 C17
 //@   frozen E!Str E!Int F!util_Set
 //@   requires icfg != nil && icfg > 0
-//@   requires icfg.tree.root.schemes == nil && icfg.tree.root.children == nil
+//@   requires icfg.tree.root.schemes == nil && icfg.tree.root.children == nil && len(icfg.tree.root.edges) == 0 && len(icfg.tree.root.ports) == 0
 //@   assigns icfg.tree
 //@   assigns heap("F!origins_node!suf")
 //@   assigns heap("F!origins_node!edges")
@@ -190,7 +190,8 @@ package cors
 //@   loop 0 invariant forall k :: 0 <= k && k < len(errs) ==> errs[k] != nil
 //@   loop 0 invariant allowAnyOrigin == (exists j :: 0 <= j && j <= rangeindex && patterns[j] == "*")
 //@   loop 0 invariant (len(errs) == 0 && !allowAnyOrigin && rangeindex >= 0) ==> !(tree.root.schemes == nil && tree.root.children == nil)
-//@   loop 0 invariant icfg.tree.root.schemes == nil && icfg.tree.root.children == nil
+//@   loop 0 invariant icfg.tree.root.schemes == nil && icfg.tree.root.children == nil && len(icfg.tree.root.edges) == 0 && len(icfg.tree.root.ports) == 0
+//@   loop 0 invariant origins.NodeOK(addr(tree.root))
 //@   loop 0 decreases len(patterns) - rangeindex
 
 //@ func newInternalConfig
